@@ -24,6 +24,7 @@ import (
 	"net/http"
 	"net/http/httptest"
 	"net/url"
+	"os"
 	"strconv"
 	"strings"
 	"testing"
@@ -40,7 +41,14 @@ import (
 	"verif/harness/rig/refstore"
 )
 
-func TestMain(m *testing.M) { engine.Main(m) }
+func TestMain(m *testing.M) {
+	if os.Getenv(histChildEnv) != "" {
+		// worker subprocess of the history part (history_test.go): no testing framework involved
+		histChildMain()
+		return
+	}
+	engine.Main(m)
+}
 
 // ---------------------------------------------------------------------------
 // alphabet
@@ -152,7 +160,23 @@ var (
 	dCause = engine.D("cause", "oidc-error", "plain-error")
 )
 
+// sentinelErr is what a storage that keeps its errors in package-level variables
+// returns: the SAME *oidc.Error for every request (used by the history part only,
+// which runs single-threaded in a worker subprocess).
+var sentinelErr = oidc.ErrAccessDenied().WithDescription("%s", "ed.sentinel")
+
+// descOf is the error_description the receiver must see for a storage error of this kind.
+func descOf(kind, s string) string {
+	if kind == "sentinel" {
+		return "ed.sentinel"
+	}
+	return tag("ed", s)
+}
+
 func causeOf(kind, s string) (err error, code string) {
+	if kind == "sentinel" {
+		return sentinelErr, "access_denied"
+	}
 	if kind == "plain-error" {
 		return errors.New(tag("ed", s)), "server_error"
 	}
@@ -180,6 +204,7 @@ type codeResp struct {
 type directCase struct {
 	s, uri, mode, rtype string
 	isErr, ss           bool
+	fw                  *faultWriter // history part: the ResponseWriter to use (nil: a recorder that never fails)
 }
 
 var encoder = oidc.NewEncoder()
@@ -230,6 +255,14 @@ func (c directCase) run() *got {
 	g := &got{}
 	if p := engine.Safe(func() {
 		if c.mode == "form_post" && !c.isErr {
+			if c.fw != nil { // history part
+				if err := op.AuthResponseFormPost(c.fw, c.uri, resp, encoder); err != nil {
+					g.kind, g.refused = "refused", err.Error()
+					return
+				}
+				g.kind, g.body = "form", c.fw.body
+				return
+			}
 			w := httptest.NewRecorder()
 			if err := op.AuthResponseFormPost(w, c.uri, resp, encoder); err != nil {
 				g.kind, g.refused = "refused", err.Error()
@@ -256,6 +289,7 @@ func directWant(c directCase) *want {
 	w.refKey = fmt.Sprintf("direct|%s|%v|%v|%v", c.rtype, c.isErr, c.ss, c.s == "")
 	w.ref = func() []byte {
 		b := c
+		b.fw = nil
 		b.uri = plainURI
 		if c.s != "" {
 			b.s = benign
@@ -335,6 +369,7 @@ type handlerCase struct {
 	s, uri, mode, rtype, kind string // kind: success | AuthRequestError | TryErrorRedirect
 	ss                        bool
 	cause                     string
+	fw                        *faultWriter // history part: the ResponseWriter to use (nil: rig's recorder)
 }
 
 func (c handlerCase) authReq() *refstore.AuthReq {
@@ -374,7 +409,7 @@ func (c handlerCase) run(r *rig.Rig) *got {
 		}
 		op.AuthRequestError(w, req, a, cause, r.Provider)
 	})
-	return observe(rig.Do(h, r.Core, rig.Req("GET", "/authorize/callback", url.Values{"id": {a.ID}}, nil)))
+	return observe(doOn(c.fw, h, r.Core, rig.Req("GET", "/authorize/callback", url.Values{"id": {a.ID}}, nil)))
 }
 
 func handlerWant(c handlerCase, r, refRig *rig.Rig) *want {
@@ -392,7 +427,7 @@ func handlerWant(c handlerCase, r, refRig *rig.Rig) *want {
 	case w.isErr:
 		_, code := causeOf(c.cause, c.s)
 		add("error", code)
-		add("error_description", tag("ed", c.s))
+		add("error_description", descOf(c.cause, c.s))
 		add("state", c.s)
 		add("session_state", ss)
 	case c.rtype == "code":
@@ -414,6 +449,7 @@ func handlerWant(c handlerCase, r, refRig *rig.Rig) *want {
 	w.refKey = fmt.Sprintf("handler|%s|%s|%v|%v|%s", c.kind, c.rtype, c.ss, c.s == "", c.cause)
 	w.ref = func() []byte {
 		b := c
+		b.fw = nil
 		b.uri = plainURI
 		if c.s != "" {
 			b.s = benign
@@ -431,6 +467,7 @@ type httpCase struct {
 	s, uri, mode, rtype, kind string // kind: success | notdone | cbfault | authzerr | createfault | cbfault-client
 	ss                        bool
 	cause                     string
+	fw                        *faultWriter // history part: the ResponseWriter of the callback request (nil: rig's recorder)
 }
 
 var faultAtCallback = map[string]bool{"SaveAuthCode": true, "CreateAccessToken": true, "CreateAccessAndRefreshTokens": true,
@@ -490,7 +527,7 @@ func (c httpCase) run(r *rig.Rig) *got {
 			return nil
 		}
 	}
-	resp = r.Callback(c.router, id)
+	resp = doOn(c.fw, r.H[c.router], r.Core, rig.Req("GET", "/authorize/callback", url.Values{"id": {id}}, nil)) // = r.Callback
 	r.Core.Fault = nil
 	return observe(resp)
 }
@@ -529,7 +566,7 @@ func httpWant(c httpCase, r, refRig *rig.Rig) *want {
 	case "cbfault", "cbfault-client":
 		_, code := causeOf(c.cause, c.s)
 		add("error", code)
-		add("error_description", tag("ed", c.s))
+		add("error_description", descOf(c.cause, c.s))
 		add("state", c.s)
 		add("session_state", ss)
 	case "createfault":
@@ -552,6 +589,7 @@ func httpWant(c httpCase, r, refRig *rig.Rig) *want {
 	w.refKey = fmt.Sprintf("http|%d|%s|%s|%v|%v|%s", c.router, c.kind, c.rtype, c.ss, c.s == "", c.cause)
 	w.ref = func() []byte {
 		b := c
+		b.fw = nil
 		b.uri = plainURI
 		if c.s != "" {
 			b.s = benign
@@ -565,14 +603,15 @@ func httpWant(c httpCase, r, refRig *rig.Rig) *want {
 
 func TestCheck(t *testing.T) {
 	c := engine.Start(t, "C11")
-	c.SetRule("E1: (direct) full product strings × redirect-URI shapes × response_mode × response_type × {success,error} × session_state on op.AuthResponseURL / op.AuthResponseFormPost; (handler) the same product on op.AuthResponse / op.AuthRequestError / op.TryErrorRedirect with a crafted stored request; (http) full product router × URI × mode × type × {success, 4 error paths} crossed with ≤1 deviation in {string, session_state, storage error kind}; every output decoded like the receiver (query / raw fragment / HTML tokeniser) and compared byte for byte; distinct = (oracle rule, observed outcome class)")
+	c.SetRule("E1: (direct) full product strings × redirect-URI shapes × response_mode × response_type × {success,error} × session_state on op.AuthResponseURL / op.AuthResponseFormPost; (handler) the same product on op.AuthResponse / op.AuthRequestError / op.TryErrorRedirect with a crafted stored request; (http) full product router × URI × mode × type × {success, 4 error paths} crossed with ≤1 deviation in {string, session_state, storage error kind}; every output decoded like the receiver (query / raw fragment / HTML tokeniser) and compared byte for byte; (history) every sequence of 2 (thorough 3) response-producing calls over 18 calls × 3 value triples × writer fault at body byte {0,1,middle,len-1,never} for every earlier call, and (history-allpos) every byte position of an interrupted AuthResponseFormPost followed by a second response: the LAST response must satisfy the decoding oracle and decode exactly as the same call does in a fault-free history; distinct = (oracle rule, observed outcome class)")
 	c.Assume("net/url query parsing and golang.org/x/net/html tokenisation behave like a user agent's",
 		"redirect URI that already has a fragment, fragment mode: the old fragment may be replaced (DESIGN §1.6)",
 		"scope / token_type / expires_in: integrity when present, absence is no violation (DESIGN §1.6)",
 		"errors of a form_post request and responses without response_mode may use any channel; the one used is decoded",
 		"U+0000 and bare CR cannot be written into an HTML attribute (parsers yield U+FFFD / LF): in form_post these two arrive as HTML carries them",
 		"implicit-flow responses of this library never contain session_state (not produced): not demanded",
-		"LegacyServer router answers authorize-request validation errors with JSON instead of a redirect: not demanded")
+		"LegacyServer router answers authorize-request validation errors with JSON instead of a redirect: not demanded",
+		"history part: hidden state is looked for in one process on one P with the collector off during a history (worker subprocesses); whether a failed body write is reported to the caller is not judged; a storage may return the same *oidc.Error value for every request")
 
 	lvlDirect := engine.Pick(c, 1, 2)
 	lvlHandler := engine.Pick(c, 0, 1)
@@ -640,5 +679,8 @@ func TestCheck(t *testing.T) {
 		},
 	})
 	lap("http")
+	// --- part 4: histories (history_test.go) ---------------------------------
+	runHistoryParts(c)
+	lap("history")
 	c.Finish()
 }
